@@ -217,6 +217,14 @@ def stage_equivariance(ck):
 
     stages = (("Taus.tau_exit_prob", st_pexit), ("Taus.tau_energy", st_etau), ("EAS.altDec", st_altdec), ("EAS.__call__", st_eas), ("EASRadio.__call__ + calculate_snr", st_radio), ("Spectra.__call__", st_spectrum))
 
+    def rebuild():
+        """fresh objects for every stage (the ones above have been called many times by then)"""
+        nonlocal taus, eas, radio, spectra
+        taus = C05.fresh_taus("3")
+        eas = EAS(cfg)
+        radio = EASRadio(rcfg)
+        spectra = Spectra(pcfg)
+
     def take(c, idx):
         return {k: v[idx] for k, v in c.items()}
 
@@ -252,6 +260,20 @@ def stage_equivariance(ck):
                 inner = tb[-1] if tb else None
                 fails.append({"obligation": "bounded.stage_equivariance", "clause": "%s evaluates on a batch of %d events" % (name, n), "input": {"stage": name, "events": n, "seed": ck.seed + 17},
                               "observed": "raised %r at %s:%s" % (ex, os.path.basename(inner.filename) if inner else "?", inner.lineno if inner else "?")})
+    # call history: objects that have evaluated all the batches above give, for one more batch, what freshly built objects give
+    c = cols(9)
+    try:
+        with np.errstate(all="ignore"):
+            used = {name: f(c) for name, f in stages}
+            rebuild()
+            fresh_ = {name: f(c) for name, f in stages}
+        nev += 9 * len(stages)
+        for name, _f in stages:
+            if not same(used[name], fresh_[name]):
+                fails.append({"obligation": "bounded.stage_equivariance", "clause": "%s: an object that has evaluated other batches before gives what a freshly built object gives" % name, "input": {"stage": name, "events": 9, "earlier calls on the object": "all batches of this design"},
+                              "observed": {"used object": np.asarray(used[name][0], float).ravel()[:4].tolist(), "fresh object": np.asarray(fresh_[name][0], float).ravel()[:4].tolist()}})
+    except Exception as ex:
+        fails.append({"obligation": "bounded.stage_equivariance", "clause": "stages evaluate on used and on fresh objects", "input": {"events": 9}, "observed": "raised %r" % ex})
     return {"evaluations": nev, "failures": fails}
 
 
